@@ -31,6 +31,8 @@ DATASETS = {
     'pairwise-3mr': dict(cols=5, rows=900, B=290, heuristic='MI-numba-3mr', target_only='False', cap=10 ** 6, cards=[2, 4, 20, 300]),
     'target-randomized-interactions': dict(cols=5, rows=1200, B=280, heuristic='MI-numba-randomized', target_only='True', cap=7, cards=[2, 3, 50, 700], interaction_order=2),
     'pairwise-coverage-many-batches': dict(cols=7, rows=1500, B=240, heuristic='max-value-coverage', target_only='False', cap=20, cards=[2, 6, 60, 600]),
+    # reference-model JSON with the default (non-prior) heuristic: combined features come from the JSON, feature vectors arrive as (n, 1) columns
+    'reference-json': dict(cols=6, rows=1300, B=300, heuristic='MI-numba-randomized', target_only='False', cap=9, cards=[2, 3, 7, 40], reference=['f1', 'f2,f3', 'f4']),
     # a final partial batch (> 1024 rows, shorter than the full ones): per-process buffers sized by an earlier batch would show here
     'tail-batch': dict(cols=5, rows=2650, B=1500, heuristic='MI-numba-randomized', target_only='False', cap=10 ** 6, cards=[2, 6, 30, 300]),
     'target-randomized-subsampled': dict(cols=12, rows=2000, B=300, heuristic='MI-numba-randomized', target_only='True', cap=10 ** 6, cards=[2, 10, 200, 2000], subsampling=2, ratio=0.6),
@@ -40,14 +42,14 @@ DATASETS = {
 def plan(tier, seed):
     shards = []
     if tier == 'quick':
-        sets = ['pairwise-randomized-cap', 'target-coverage', 'target-randomized-interactions', 'pairwise-3mr', 'target-randomized-subsampled', 'tail-batch']
+        sets = ['pairwise-randomized-cap', 'target-coverage', 'target-randomized-interactions', 'pairwise-3mr', 'target-randomized-subsampled', 'tail-batch', 'reference-json']
         pools, dseeds = [1, 2, 3, 8, 16], [0, 1]
     else:
         sets = list(DATASETS)
         pools, dseeds = [1, 2, 3, 4, 6, 8, 12, 16], [0, 1, 2, 3]
     for ds in sets:
         shards.append({'name': '%s/sync' % ds, 'fn': 'shard_run', 'args': {'ds': ds, 'pool': 0, 'dseed': 0, 'rep': 0}})
-        for p in pools:
+        for p in (pools if tier == 'thorough' or ds in sets[:2] else [1, 3, 8]):
             for d in dseeds:
                 if tier == 'thorough' and p in (2, 4, 6, 12) and d > 1:
                     continue
@@ -107,7 +109,15 @@ def shard_run(sh, ds, pool, dseed, rep):
         cr.get_importances_estimate_pairwise = delayed   # installed before the pool forks: inherited by every worker
     else:
         tr.Pool = lambda n: pipe.SyncPool()
-    args = pipe.make_args(data_path=dpath, output_folder=out_dir, minibatch_size=cfg['B'], heuristic=cfg['heuristic'], target_ranking_only=cfg['target_only'],
+    ref_json = ''
+    if cfg.get('reference'):
+        import json
+        ref_json = os.path.join(sh.scratch, 'reference_model.json')
+        with open(ref_json, 'w') as f:
+            json.dump({'desc': {'features': cfg['reference'], 'fields': []}}, f)
+    args = pipe.make_args(data_path=dpath, output_folder=out_dir, minibatch_size=cfg['B'], reference_model_JSON=ref_json,
+                          disable_tqdm='False' if (dseed == 1 or rep == 1) else 'True',       # the banner / tip / progress output must not influence results
+                          heuristic=cfg['heuristic'], target_ranking_only=cfg['target_only'],
                           combination_number_upper_bound=cfg['cap'], num_threads=max(1, pool), interaction_order=cfg.get('interaction_order', 1),
                           subsampling=cfg.get('subsampling', 1), mi_stratified_sampling_ratio=cfg.get('ratio', 1.0), include_cardinality_in_feature_names='True')
     t0 = time.time()
